@@ -77,39 +77,67 @@ theorem not_imported_reported (c : Ctx) (p : Pkg) (full : String)
     (resolveQualified c p full).notImported = true := by
   simp [resolveQualified, h1, h2, h3, h4]
 
-/-- **no reference form is accepted unless the package it names is visible from its file** -/
+/-- a value path — of any length — is error-free only if its root is the package itself or an
+    import of the file -/
+theorem path_accepted_visible {q : PkgSrc} {fi : List Pkg} {p : Pkg} (h : pathCls q fi p = []) :
+    p = q.name ∨ p ∈ fi := by
+  unfold pathCls at h
+  by_cases ho : p = q.name
+  · exact Or.inl ho
+  · have ho' : (p == q.name) = false := by simpa using ho
+    simp only [ho', Bool.false_eq_true, if_false] at h
+    by_cases hc : p ∈ fi
+    · exact Or.inr hc
+    · simp [hc] at h
+
+/-- **no reference form is accepted unless every package it names is visible from its file**:
+    `P::f`, `P::SP`, `P::SP { }`, `P::EP::K`, `T: P::TP`, `dyn P::TP`, and the three-segment paths
+    `P::SP::mk`, `P::SP::get`, `P::TP::m` name `P`; `sself` and `flow` name the package whose
+    function hands out the value (`flow` names nothing else: it only uses a value of a type of `P`) -/
 theorem use_accepted_visible (q : PkgSrc) (u : Use) (h : useClasses q u = []) :
-    u.target = q.name ∨ u.target = builtinName ∨ u.target ∈ fileImports q u.file := by
-  by_cases hown : u.target = q.name
-  · exact Or.inl hown
-  · have hown' : (u.target == q.name) = false := by simpa using hown
-    have viaAllowed : packageAllowed u.target q.name (fileImports q u.file) = true →
-        u.target = q.name ∨ u.target = builtinName ∨ u.target ∈ fileImports q u.file :=
-      (package_allowed_iff _ _ _).1
-    unfold useClasses at h
-    cases hf : u.form <;> simp only [hf, hown', Bool.false_eq_true, if_false, Bool.false_or] at h
-    · -- fn
-      by_cases hc : u.target ∈ fileImports q u.file
-      · exact Or.inr (Or.inr hc)
-      · simp [hc] at h
-    · -- ty
-      by_cases ha : packageAllowed u.target q.name (fileImports q u.file) = true
-      · exact viaAllowed ha
-      · simp [ha] at h
-    · by_cases ha : packageAllowed u.target q.name (fileImports q u.file) = true
-      · exact viaAllowed ha
-      · simp [ha] at h
-    · by_cases ha : packageAllowed u.target q.name (fileImports q u.file) = true
-      · exact viaAllowed ha
-      · simp [ha] at h
-    · by_cases ha : packageAllowed u.target q.name (fileImports q u.file) = true
-      · exact viaAllowed ha
-      · simp [ha] at h
-    · by_cases ha : packageAllowed u.target q.name (fileImports q u.file) = true
-      · exact viaAllowed ha
-      · simp [ha] at h
-    · simp at h
-    · simp at h
+    ∀ n ∈ u.named, n = q.name ∨ n = builtinName ∨ n ∈ fileImports q u.file := by
+  have viaAllowed : ∀ p, packageAllowed p q.name (fileImports q u.file) = true →
+      p = q.name ∨ p = builtinName ∨ p ∈ fileImports q u.file :=
+    fun p => (package_allowed_iff _ _ _).1
+  have ofPath : ∀ p, pathCls q (fileImports q u.file) p = [] →
+      p = q.name ∨ p = builtinName ∨ p ∈ fileImports q u.file := by
+    intro p hp
+    rcases path_accepted_visible hp with e | e
+    · exact Or.inl e
+    · exact Or.inr (Or.inr e)
+  have single : (u.target = q.name ∨ u.target = builtinName ∨ u.target ∈ fileImports q u.file) →
+      u.named = [u.target] → ∀ n ∈ u.named, n = q.name ∨ n = builtinName ∨ n ∈ fileImports q u.file := by
+    intro ht hn n hm
+    rw [hn] at hm
+    have : n = u.target := by simpa using hm
+    exact this ▸ ht
+  unfold useClasses at h
+  cases hf : u.form <;> simp only [hf] at h
+  case smeth => exact single (ofPath _ h) (by simp [Use.named, hf])
+  case tmeth => exact single (ofPath _ h) (by simp [Use.named, hf])
+  case sself =>
+    have h' := List.append_eq_nil_iff.1 h
+    intro n hm
+    have : n = u.via ∨ n = u.target := by simpa [Use.named, hf] using hm
+    rcases this with e | e
+    · exact e ▸ ofPath _ h'.1
+    · exact e ▸ ofPath _ h'.2
+  case flow =>
+    have h' := List.append_eq_nil_iff.1 h
+    intro n hm
+    have : n = u.via := by simpa [Use.named, hf] using hm
+    exact this ▸ ofPath _ h'.1
+  all_goals
+    refine single ?_ (by simp [Use.named, hf])
+    by_cases hown : u.target = q.name
+    · exact Or.inl hown
+    · have hown' : (u.target == q.name) = false := by simpa using hown
+      try simp only [hown', Bool.false_eq_true, if_false, Bool.false_or] at h
+      first
+        | exact ofPath _ h
+        | (by_cases ha : packageAllowed u.target q.name (fileImports q u.file) = true
+           · exact viaAllowed _ ha
+           · simp [ha] at h)
 
 /-- **an error-free package names only visible packages in its impls and obeys the orphan rule**:
     every package named by an impl (its trait, the head and the argument of its target type) is
@@ -117,7 +145,7 @@ theorem use_accepted_visible (q : PkgSrc) (u : Use) (h : useClasses q u = []) :
     in the package itself — `Vec[…]`, `Ref[…]`, tuples, arrays, function types, `dyn` and primitives
     are nobody's — and an inherent impl is for a type of the package itself -/
 theorem accepted_package_isolated (q : PkgSrc) (h : (localCheck q).cls = []) :
-    (∀ u ∈ q.uses, u.target = q.name ∨ u.target = builtinName ∨ u.target ∈ fileImports q u.file) ∧
+    (∀ u ∈ q.uses, ∀ n ∈ u.named, n = q.name ∨ n = builtinName ∨ n ∈ fileImports q u.file) ∧
     (∀ d ∈ q.impls,
       (∀ n ∈ d.tyNames, n = q.name ∨ n = builtinName ∨ n ∈ fileImports q d.file) ∧
       (d.inherent = true → (d.shape = .nom ∨ d.shape = .gen) ∧ d.head = q.name) ∧
@@ -349,20 +377,28 @@ def okWorld : World :=
   { disk := [("Main", .unit "Main" ["Aa", "Bb"]), ("Aa", .unit "Aa" []), ("Bb", .unit "Bb" ["Aa"])]
     srcs := [
       { name := "Main", imports := ["Aa", "Bb"],
-        uses := [⟨0, .fn, "Aa", false⟩, ⟨0, .ty, "Bb", false⟩, ⟨0, .ctor, "Bb", false⟩], impls := [⟨0, false, "Main", .nom, "Bb", "", "R"⟩, ⟨0, false, "Main", .vec, "", "Bb", "S"⟩,
+        uses := [⟨0, .fn, "Aa", false, ""⟩, ⟨0, .ty, "Bb", false, ""⟩, ⟨0, .ctor, "Bb", false, ""⟩,
+                 ⟨0, .smeth, "Bb", false, ""⟩, ⟨0, .sself, "Aa", false, "Bb"⟩, ⟨0, .tmeth, "Aa", false, ""⟩,
+                 ⟨0, .flow, "Aa", false, "Bb"⟩],
+        impls := [⟨0, false, "Main", .nom, "Bb", "", "R"⟩, ⟨0, false, "Main", .vec, "", "Bb", "S"⟩,
                   ⟨0, true, "", .gen, "Main", "Aa", "S"⟩, ⟨0, false, "Aa", .gen, "Main", "Bb", "S"⟩] },
-      { name := "Aa", imports := [], uses := [⟨0, .fn, "Aa", true⟩], impls := [⟨0, false, "Aa", .prim, "", "", "S"⟩, ⟨0, false, "Aa", .dynT, "Aa", "", "S"⟩] },
-      { name := "Bb", imports := ["Aa"], uses := [⟨0, .bound, "Aa", false⟩], impls := [⟨0, false, "Aa", .nom, "Bb", "", "S"⟩, ⟨0, false, "Bb", .ref, "", "Aa", "S"⟩] }] }
+      { name := "Aa", imports := [], uses := [⟨0, .fn, "Aa", true, ""⟩], impls := [⟨0, false, "Aa", .prim, "", "", "S"⟩, ⟨0, false, "Aa", .dynT, "Aa", "", "S"⟩] },
+      { name := "Bb", imports := ["Aa"], uses := [⟨0, .bound, "Aa", false, ""⟩], impls := [⟨0, false, "Aa", .nom, "Bb", "", "S"⟩, ⟨0, false, "Bb", .ref, "", "Aa", "S"⟩] }] }
 
 example : check okWorld (btreeIter okWorld.disk.importsOf) id = .ok [] := by decide
 
-/-- the same program with a reference to a package that is only transitively imported, an orphan
+/-- the same program with references to a package that is only transitively imported (`Aa::f`,
+    `x: Aa::SAa`, and the three-segment paths `Aa::SAa::mk`, `Aa::SAa::get`, `Aa::TAa::m`, plus the
+    field access on a value of `Aa::SAa` obtained from `Bb`), an orphan
     impl, a duplicate impl, orphan impls of a foreign trait for `Vec[int32]` and `Ref[Bb::SBb]` in the
     root package, and inherent impls for `Vec[int32]` and for a foreign generic type -/
 def badWorld : World :=
   { srcs := [
       { name := "Main", imports := ["Bb"],
-        uses := [⟨0, .fn, "Aa", false⟩, ⟨0, .ty, "Aa", false⟩], impls := [⟨0, false, "Bb", .nom, "Bb", "", "S"⟩, ⟨0, false, "Main", .nom, "Main", "", "S"⟩,
+        uses := [⟨0, .fn, "Aa", false, ""⟩, ⟨0, .ty, "Aa", false, ""⟩,
+                 ⟨0, .smeth, "Aa", false, ""⟩, ⟨0, .sself, "Aa", false, "Bb"⟩, ⟨0, .tmeth, "Aa", false, ""⟩,
+                 ⟨0, .flow, "Aa", false, "Bb"⟩],
+        impls := [⟨0, false, "Bb", .nom, "Bb", "", "S"⟩, ⟨0, false, "Main", .nom, "Main", "", "S"⟩,
                   ⟨0, false, "Bb", .vec, "", "int32", "S"⟩, ⟨0, false, "Bb", .ref, "", "Bb", "S"⟩,
                   ⟨0, true, "", .vec, "", "int32", "S"⟩, ⟨0, true, "", .gen, "Bb", "Main", "S"⟩] },
       { name := "Aa", imports := [], uses := [], impls := [] },
@@ -370,7 +406,8 @@ def badWorld : World :=
     disk := [("Main", .unit "Main" ["Bb"]), ("Aa", .unit "Aa" []), ("Bb", .unit "Bb" ["Aa"])] }
 
 example : check badWorld (btreeIter badWorld.disk.importsOf) id =
-    .ok [.unresolved, .notImported, .unresolved, .orphan, .dupLocal, .orphan, .orphan, .inherentNonLocal, .inherentNonLocal] := by decide
+    .ok [.unresolved, .notImported, .unresolved, .unresolved, .unresolved, .unresolved, .unresolved,
+         .orphan, .dupLocal, .orphan, .orphan, .inherentNonLocal, .inherentNonLocal] := by decide
 
 example : check { disk := [("Main", .unit "Main" ["Aa", "Zz"]), ("Aa", .unit "Aa" [])], srcs := [] }
     (btreeIter fun p => if p = "Main" then ["Aa", "Zz"] else []) id = .error (.load "Zz" .unreadable) := by decide
